@@ -212,6 +212,18 @@ func guardParams(c *Ctx) {
 					if call, ok := m.(*ast.CallExpr); ok && isBuiltin(info, call, "panic") {
 						panics = true
 					}
+					// the default may be a declared function that panics: cb = panicOnError
+					if id, ok := m.(*ast.Ident); ok {
+						if fo, isFn := info.Uses[id].(*types.Func); isFn {
+							if g := c.P.Funcs[fo.Origin()]; g != nil && g.Decl != nil && g.Decl.Body != nil && len(g.Decl.Body.List) > 0 {
+								if es, isES := g.Decl.Body.List[0].(*ast.ExprStmt); isES {
+									if pc, isCall := es.X.(*ast.CallExpr); isCall && isBuiltin(c.info(g), pc, "panic") {
+										panics = true
+									}
+								}
+							}
+						}
+					}
 					return true
 				})
 			}
